@@ -23,6 +23,7 @@ import SharkVerif.Lemmas.McTables
 import SharkVerif.Lemmas.McSmoAll
 import SharkVerif.Lemmas.McLinear
 import SharkVerif.Lemmas.McOptimality
+import SharkVerif.Lemmas.McPerm
 namespace SharkVerif.C16
 open SharkVerif.Mc SharkVerif.Gen.McTables SharkVerif.McTables
 
@@ -282,6 +283,20 @@ theorem stopped_state_near_optimal (s : McBox Rat) (h : FullInv s) (hall : s.act
     (b : Nat → Rat) (hbf : Feasible (s.P * s.n) s.C b) :
     dualObj (s.P * s.n) s.lin s.Q b - dualObj (s.P * s.n) s.lin s.Q s.alpha ≤ eps * (s.P * s.n : Nat) * s.C :=
   state_near_optimal s hall h.grad h.box h.C_nonneg eps heps hsym hpsd hk b hbf
+
+/-- **perm_examples_equivariant**: presenting the examples in another order `σ` (labels, kernel matrix and linear
+part permuted accordingly) yields the SAME dual problem up to the induced renumbering `(i,p) ↦ (σ i, p)` of the
+variables: `Q'(v,w) = Q(σ̂ v, σ̂ w)` and `lin'(v) = lin(σ̂ v)`, for every formulation family and class count.
+Together with `mc_kkt_eps_near_optimal` this is the "any reordering of the training examples" clause in exact
+arithmetic (for a bijective `σ` the two objectives are the same function up to renaming). -/
+theorem perm_examples_equivariant (f : Family) (c n : Nat) (hc : 2 ≤ c) (C : Rat) (K : Nat → Nat → Rat)
+    (labels : Nat → Nat) (linMat : Nat → Nat → Rat) (σ : Nat → Nat) (v w : Nat) :
+    (problem f c n C (fun i j => K (σ i) (σ j)) (fun i => labels (σ i)) (fun i p => linMat (σ i) p)).Q v w
+      = (problem f c n C K labels linMat).Q (liftPerm (f.P c) σ v) (liftPerm (f.P c) σ w) ∧
+    (problem f c n C (fun i j => K (σ i) (σ j)) (fun i => labels (σ i)) (fun i p => linMat (σ i) p)).lin v
+      = (problem f c n C K labels linMat).lin (liftPerm (f.P c) σ v) := by
+  have hP : 0 < f.P c := by cases f <;> simp [Family.P] <;> omega
+  exact perm_examples_equivariant_Q c (f.P c) n hP C _ K labels linMat σ v w
 
 /-- Gram matrices are positive semidefinite (the hypothesis `PSD` above is satisfiable by every kernel matrix of
 explicit features; for `Q = M ⊗ K` PSD-ness follows from `M_is_gram_of_nu` and a PSD `K` — that Kronecker step is
